@@ -110,6 +110,8 @@ class SimFS:
         self.fired = {}
         self.raw_writes = {}
         self.dead = set()
+        self.locale = "utf-8"  # what open() and the standard streams use when none is given
+        self.strict_warnings = False
 
     def put(self, path, text):
         self.files[path] = bytearray(text.encode())
@@ -126,7 +128,7 @@ class SimFS:
             buf = io.BufferedReader(raw, buffer_size=64)
         else:
             buf = io.BufferedWriter(raw, buffer_size=256)
-        fobj = buf if "b" in mode else io.TextIOWrapper(buf, encoding=encoding or "utf-8",
+        fobj = buf if "b" in mode else io.TextIOWrapper(buf, encoding=encoding or self.locale,
                                                         errors=errors)
         if "b" in mode:
             # BufferedWriter.name proxies raw.name
@@ -164,14 +166,19 @@ def run_process(fs, argv, stdin_text="", order=0, clock=0):
     fs.dead.discard("<stdout>")
     fs.files["<stdout>"] = bytearray()
     out_raw = SimRaw(fs, "<stdout>", "w", name="<stdout>")
-    stdout = io.TextIOWrapper(io.BufferedWriter(out_raw, buffer_size=256), encoding="utf-8")
+    stdout = io.TextIOWrapper(io.BufferedWriter(out_raw, buffer_size=256), encoding=fs.locale)
     stderr = io.StringIO()
-    stdin = io.TextIOWrapper(io.BytesIO(stdin_text.encode()), encoding="utf-8")
+    stdin = io.TextIOWrapper(io.BytesIO(stdin_text.encode()), encoding=fs.locale)
     sys.argv = ["superrec2"] + list(argv)
     sys.stdin, sys.stdout, sys.stderr = stdin, stdout, stderr
     argparse.open = fs.open
     ORACLE.begin(order)
     CLOCK.begin(clock)
+    import warnings
+
+    saved_filters = warnings.filters[:]
+    if fs.strict_warnings:
+        warnings.filterwarnings("error", category=UserWarning)  # python -W error::UserWarning
     try:
         try:
             code = cli.run()
@@ -204,6 +211,7 @@ def run_process(fs, argv, stdin_text="", order=0, clock=0):
         except SimCrash:
             _killed(fs, proc)  # the kill may land while buffers are flushed at exit
     finally:
+        warnings.filters[:] = saved_filters
         sys.argv, sys.stdin, sys.stdout, sys.stderr = old[:4]
         if old[4] is None:
             del argparse.open
@@ -260,6 +268,11 @@ def _case(draw, pid, tier):
         # seven and more significant digits in the printed minimum)
         "cost_scale": draw(st.sampled_from([1, 1, 1, 1, 1000003, 250])),
         "prior": None,
+        # the environment of the simulated processes: locale encoding of text streams,
+        # user warnings escalated to errors, a name outside ASCII in the input document
+        "env": {"locale": draw(st.sampled_from(["utf-8", "utf-8", "ascii", "latin-1"])),
+                "strict_warnings": draw(st.integers(0, 3)) == 0,
+                "unicode_name": draw(st.integers(0, 3)) == 0},
     }
     if draw(st.integers(0, 3)) == 0:
         # an earlier invocation of the tool in the same interpreter (a caller that uses the
@@ -396,7 +409,21 @@ def execute(case, focus=None):
     mode = e1_solver.MODE[algo]
     labelled_input = spec["syn"] is not None
     doc, obj_nested, onames, snames, leaf_species = input_document(case)
+    env = case.get("env") or {}
+    if env.get("unicode_name") and labelled_input:
+        # one gene family gets a name outside ASCII (the document itself stays pure ASCII:
+        # json.dumps escapes it, as any JSON writer may)
+        fams = sorted({f for s in doc["leaf_syntenies"].values() for f in s})
+        if fams:
+            ren = {fams[0]: fams[0] + "\u00e9\u03a9"}
+            doc["leaf_syntenies"] = {k: [ren.get(f, f) for f in v]
+                                     for k, v in doc["leaf_syntenies"].items()}
+            run.probe("non_ascii_name")
     fs = SimFS()
+    fs.locale = env.get("locale", "utf-8")
+    fs.strict_warnings = bool(env.get("strict_warnings"))
+    if fs.locale != "utf-8":
+        run.probe("non_utf8_locale")
     fs.short = bool(case["short_io"])
     fs.put("in.json", json.dumps(doc))
     extra, costs = cost_args(case)
@@ -687,6 +714,7 @@ def describe(pid):
                             "F3_ENOSPC", "F3_EPIPE", "F3_EIO", "F3_CRASH", "F5_clock_jump", "draw_file",
                             "draw_stdout", "draw_pdf", "partially_named", "unnamed_ancestors",
                             "species_inferred_from_names", "stdin_input", "polytomy_input",
-                            "prefix_checked", "reconcile_to_stdout", "large_costs",
+                            "prefix_checked", "reconcile_to_stdout", "large_costs", "non_ascii_name",
+                            "non_utf8_locale",
                             "prior_invocation_other_costs"],
     }
